@@ -221,7 +221,18 @@ void SHA512::process(const void* data, std::uint32_t size)
 
 void SHA512::process(tlx::string_view str)
 {
-    return process(str.data(), str.size());
+    // process(const void*, std::uint32_t) takes a 32-bit size: feed strings of
+    // 4 GiB and more in pieces instead of truncating str.size()
+    const char* data = str.data();
+    size_t size = str.size();
+    const size_t piece = size_t(1) << 30;
+    while (size > piece)
+    {
+        process(data, static_cast<std::uint32_t>(piece));
+        data += piece;
+        size -= piece;
+    }
+    return process(data, static_cast<std::uint32_t>(size));
 }
 
 void SHA512::finalize(void* digest)
